@@ -15,6 +15,23 @@ func (r *Run) binopChecked(op token.Token, t types.Type, x, y value) value {
 	if isSymstr(x) || isSymstr(y) {
 		return symstrBinop(op, x, y)
 	}
+	if (op == token.EQL || op == token.NEQ) && (containsSym(x) || containsSym(y)) && !isSym(x) && !isSym(y) {
+		// == on structs / arrays / interfaces with symbolic leaves: a conjunction of leaf equalities
+		conj := []string{}
+		res := value(false)
+		if shallowEq(x, y, &conj) {
+			res = true
+			if len(conj) == 1 {
+				res = symv{'b', conj[0]}
+			} else if len(conj) > 1 {
+				res = symv{'b', "(and " + strings.Join(conj, " ") + ")"}
+			}
+		}
+		if op == token.NEQ {
+			return notVal(res)
+		}
+		return res
+	}
 	if isSym(x) || isSym(y) {
 		if op == token.QUO || op == token.REM {
 			if _, k := toTerm(y); k == 'i' {
@@ -338,4 +355,97 @@ func (r *Run) mapOrderOpen(fr *frame) bool {
 		}
 	}
 	return false
+}
+
+func containsSym(v value) bool {
+	switch x := v.(type) {
+	case symv, symstr:
+		return true
+	case structure:
+		for _, e := range x {
+			if containsSym(e) {
+				return true
+			}
+		}
+	case array:
+		for _, e := range x {
+			if containsSym(e) {
+				return true
+			}
+		}
+	case iface:
+		return containsSym(x.v)
+	}
+	return false
+}
+
+// shallowEq is Go's == on comparable values (pointers by identity) with symbolic leaves
+// contributing equalities to conj.
+func shallowEq(a, b value, conj *[]string) bool {
+	if isSymstr(a) || isSymstr(b) {
+		x, ok1 := strBytes(a)
+		y, ok2 := strBytes(b)
+		if ok1 && ok2 {
+			switch e := symstrEq(x, y).(type) {
+			case bool:
+				return e
+			case symv:
+				*conj = append(*conj, e.term)
+				return true
+			}
+		}
+		ta, _ := toTerm(a)
+		tb, _ := toTerm(b)
+		*conj = append(*conj, "(= "+ta+" "+tb+")")
+		return true
+	}
+	if isSym(a) || isSym(b) {
+		ta, ka := toTerm(a)
+		tb, kb := toTerm(b)
+		if ka != kb {
+			return false
+		}
+		*conj = append(*conj, "(= "+ta+" "+tb+")")
+		return true
+	}
+	switch x := a.(type) {
+	case structure:
+		y, ok := b.(structure)
+		if !ok || len(x) != len(y) {
+			return false
+		}
+		for i := range x {
+			if !shallowEq(x[i], y[i], conj) {
+				return false
+			}
+		}
+		return true
+	case array:
+		y, ok := b.(array)
+		if !ok || len(x) != len(y) {
+			return false
+		}
+		for i := range x {
+			if !shallowEq(x[i], y[i], conj) {
+				return false
+			}
+		}
+		return true
+	case iface:
+		y, ok := b.(iface)
+		if !ok {
+			return false
+		}
+		if x.t == nil || y.t == nil {
+			return x.t == nil && y.t == nil
+		}
+		if !types.Identical(x.t, y.t) {
+			return false
+		}
+		return shallowEq(x.v, y.v, conj)
+	case *value:
+		y, ok := b.(*value)
+		return ok && x == y
+	}
+	return a == b
 }
